@@ -22,7 +22,8 @@ def valid_lines(rng):
         n = rng.randrange(0, 5)
         toks = []
         for _ in range(n):
-            toks.append(rng.choice(["c", "d8", "e4.", "r", "l8", "o5", "v100", "q90", "[2 c d]", "n60,4", "'ceg'", "@3;", "y7,100;", "TR(2)", "Sub{c}", "{cde}4", ">", "<", "g2^8"]))
+            toks.append(rng.choice(["c", "d8", "e4.", "r", "l8", "o5", "v100", "q90", "[2 c d]", "n60,4", "'ceg'", "@3;", "y7,100;", "TR(2)", "Sub{c}", "{cde}4", ">", "<", "g2^8",
+                                    "(", ")", "( d )", "(c) e"]))      # (the velocity steps `(` `)`: an unknown word in front of them takes nothing with it)
         lines.append(toks)
     return lines
 
